@@ -501,6 +501,31 @@ pub fn run(tier: &str, seed: u64, s: &mut Sink) {
         let all = thorough || i < 5;
         corruptions(s, &mut r, &b, all, if thorough { 300 } else { 60 }, if thorough { 12 } else { 6 }, false);
     }
+    // the zero padding is bound by its own check AND by the payload CRC: every 1- and 2-bit change confined to the
+    // padding bytes (exhaustively; triples in thorough), for every padding length
+    for n in [1usize, 2, 3, 5, 6, 7] {
+        let b = valid(&mut r, &devs, n).bytes();
+        let (lo, hi) = ((20 + n) * 8, (20 + n + pad_of(n)) * 8);
+        for a in lo..hi {
+            emit(s, "padding-flip1", &flip(&b, &[a]));
+            for c in a + 1..hi {
+                emit(s, "padding-flip2", &flip(&b, &[a, c]));
+                if thorough {
+                    for d in c + 1..hi {
+                        emit(s, "padding-flip3", &flip(&b, &[a, c, d]));
+                    }
+                }
+            }
+        }
+        // padding bytes all set to the same value, and padding with a CRC recomputed over it
+        for v in [1u8, 0x80, 0xFF] {
+            let mut q = b.clone();
+            for i in 20 + n..20 + n + pad_of(n) {
+                q[i] = v;
+            }
+            emit(s, "padding-same-value", &q);
+        }
+    }
     // every burst length at every offset of one small chunk
     {
         let b = valid(&mut r, &devs, 6).bytes();
